@@ -1905,6 +1905,17 @@ func (ss *ServerSession) handle(ctx context.Context, req *jsonrpc.Request) (any,
 				Message: fmt.Sprintf("%q is not supported in the new protocol", req.Method),
 			}
 		}
+		// Of the methods above, only the lifecycle ones may precede initialize;
+		// the others are subject to the same initialization gate as every
+		// other feature method (see the default case).
+		switch req.Method {
+		case methodInitialize, methodPing, notificationInitialized:
+		default:
+			if !initialized {
+				ss.server.opts.Logger.Error("method invalid during initialization", "method", req.Method)
+				return nil, fmt.Errorf("method %q is invalid during session initialization", req.Method)
+			}
+		}
 	case methodDiscover:
 		// In case of methodDiscover call the state.initializeParams is populated
 		// within the discover handle function to make sure the method is supported
